@@ -21,13 +21,14 @@ def hist_of(*key):
     h = 0
     for k in key:
         h = (h * 131 + (int(k) if not isinstance(k, str) else sum(map(ord, k)))) % 1000003
-    return h % 5
+    return h % 6
 
 
 def empty_via_history(h, init, signed, n, f, **cfg):
     """an object of format (signed, n, f) holding `init` (None / zeros array), reached through a history of in-place format changes.
     The properties quantify over objects however produced: h=0 direct; 1 resize(signed,n_word,n_frac) from the opposite signedness;
-    2 resize(dtype='fxp-..') from the opposite signedness; 3 resize(n_int=, n_frac=) from another word; 4 like= a template that was itself resized."""
+    2 resize(dtype='fxp-..') from the opposite signedness; 3 resize(n_int=, n_frac=) from another word; 4 like= a template that was itself resized;
+    5 born holding the integer 0 in an integer format (n_frac = 0), then resized to the format (the object remembers it was given integers)."""
     if h == 4 and ('op_out' in cfg or 'op_out_like' in cfg):
         h = 2       # like= deep-copies the template's config, so an op_out target would (rightly) be a copy: not this route
     if h == 0:
@@ -41,6 +42,9 @@ def empty_via_history(h, init, signed, n, f, **cfg):
     elif h == 3:
         x = Fxp(init, signed, n + 2, f + 1, **cfg)
         x.resize(n_int=n - f - (1 if signed else 0), n_frac=f)
+    elif h == 5:
+        x = Fxp(0 if init is None else init, signed, n + 1, 0, **cfg)
+        x.resize(n_word=n, n_frac=f)
     else:
         t = Fxp(None, not signed, n + 3, f - 1, **cfg)
         t.resize(dtype='fxp-%s%d/%d' % ('s' if signed else 'u', n, f))
